@@ -18,10 +18,13 @@ def _known_entry(prop, harness, cfg):
 
 def write_replay(prop, rec):
     os.makedirs(REPLAY_DIR, exist_ok=True)
-    h = hashlib.sha1(json.dumps(rec, sort_keys=True).encode()).hexdigest()[:10]
-    p = os.path.join(REPLAY_DIR, "%s-%s-%s.json" % (prop, rec.get("harness", rec.get("query", "q")), h))
+    dflt = lambda o: o.decode("latin1") if isinstance(o, (bytes, bytearray)) else str(o)
+    h = hashlib.sha1(json.dumps(rec, sort_keys=True, default=dflt).encode()).hexdigest()[:10]
+    import re as _re
+    name = _re.sub(r"[^A-Za-z0-9_.-]+", "_", str(rec.get("harness", rec.get("query", "q"))))[:60]
+    p = os.path.join(REPLAY_DIR, "%s-%s-%s.json" % (prop, name, h))
     with open(p, "w") as f:
-        json.dump(rec, f, indent=1)
+        json.dump(rec, f, indent=1, default=dflt)
     return p
 
 
